@@ -14,6 +14,12 @@ R7  = C18 R6 (shared): ``_BufferedReceiver.receive()`` hands out the synthesised
     buffered ("payloads arrive unchanged, in order" includes the ones that preceded a disconnect; seeded s5-c17-2).
 R6  the receive pump raises ``client_disconnected`` (what ``_send``/``closed``/``ready`` consult) before its next
     suspension point after pulling the disconnect event (function lives in c18.py: same pump context as C18 R3).
+R8  = C18 R7 (shared): the receive path (receive_*, the shared state guard, what they use) does not consult the
+    sender-side disconnect flag, so messages buffered before the client left are still handed out (seeded s6-c17-2).
+R9  the documented disconnected error always carries an integer close code: the constructor of
+    ``WebSocketDisconnected`` is evaluated concretely (a given code is reported unchanged; what None becomes), and for
+    every construction site in falcon/asgi/ws.py the argument is traced by def-use - where a None can reach it, the
+    constructor must map None to an integer (seeded s6-c17-3).  Anchors: the class, its ``code`` keyword/attribute.
 
 R1 also decides, for accept()/close(): the write of ACCEPTED/CLOSED is not reachable through an exceptional edge
 out of the send of the accept/close event; and for every other method that calls the raw send (``_send``): CLOSED is
@@ -1454,6 +1460,402 @@ def r5_payload_types(run):
                   '%s raises PayloadTypeError when the expected payload is absent (and has no other normal exit)' % name, f, '%s absent payload' % name)
 
 
+# ---------------------------------------------------------------------------
+# R9 the disconnected error always carries an integer close code
+# ---------------------------------------------------------------------------
+
+WS_MODULE = 'falcon.asgi.ws'
+_UNSET = '<self.code not assigned>'
+_RAISES = '<raises>'
+
+
+def _ctor_code(p, init: Func, given, absent=False):
+    """Concrete evaluation of ``WebSocketDisconnected.__init__`` for one value of its ``code`` argument (``absent``: the
+    argument is omitted and the declared default applies): the set of values ``self.code`` holds when the constructor
+    returns (``_UNSET`` for a path that never assigns it, ``_RAISES`` for one that raises).  The body is read, not matched:
+    ``code or K``, ``K if code is None else code``, ``if code is None: code = K`` ... all evaluate."""
+    cfg = cfg_of(init, p)
+    params = init.params()
+    selfn = params[0]
+    a = init.node.args
+    pos = [x.arg for x in a.posonlyargs + a.args]
+    env0: Dict[str, object] = {}
+    for name, d in list(zip(pos[len(pos) - len(a.defaults):], a.defaults)) + [(k.arg, d) for k, d in zip(a.kwonlyargs, a.kw_defaults) if d is not None]:
+        v = p.fold(init.module, d, init.cls, init)
+        if v is not UNKNOWN:
+            env0[name] = v
+    if absent:
+        if 'code' not in env0:
+            raise UnknownIdiom('%s: called without a code although the parameter has no (constant) default' % init.qual)
+    else:
+        env0['code'] = given
+
+    def ev(e, env):
+        if isinstance(e, ast.Constant):
+            return e.value
+        if isinstance(e, ast.Name) and e.id in env:
+            return env[e.id]
+        if isinstance(e, ast.NamedExpr):
+            raise UnknownIdiom('%s: %s' % (init.qual, short(e)))
+        if isinstance(e, ast.BoolOp):
+            v = None
+            for x in e.values:
+                v = ev(x, env)
+                if (isinstance(e.op, ast.Or) and v) or (isinstance(e.op, ast.And) and not v):
+                    return v
+            return v
+        if isinstance(e, ast.IfExp):
+            return ev(e.body, env) if ev(e.test, env) else ev(e.orelse, env)
+        if isinstance(e, ast.UnaryOp) and isinstance(e.op, ast.Not):
+            return not ev(e.operand, env)
+        if isinstance(e, ast.Compare) and len(e.ops) == 1:
+            x, y, op = ev(e.left, env), ev(e.comparators[0], env), e.ops[0]
+            try:
+                if isinstance(op, ast.Is):
+                    return x is y
+                if isinstance(op, ast.IsNot):
+                    return x is not y
+                if isinstance(op, ast.Eq):
+                    return x == y
+                if isinstance(op, ast.NotEq):
+                    return x != y
+                if isinstance(op, ast.Lt):
+                    return x < y
+                if isinstance(op, ast.LtE):
+                    return x <= y
+                if isinstance(op, ast.Gt):
+                    return x > y
+                if isinstance(op, ast.GtE):
+                    return x >= y
+                if isinstance(op, ast.In):
+                    return x in y
+                if isinstance(op, ast.NotIn):
+                    return x not in y
+            except TypeError:
+                return _RAISES
+            raise UnknownIdiom('%s: operator in %s' % (init.qual, short(e)))
+        if isinstance(e, ast.Call) and isinstance(e.func, ast.Name) and e.func.id not in env and not e.keywords:
+            if e.func.id == 'isinstance' and len(e.args) == 2:
+                ts = e.args[1].elts if isinstance(e.args[1], ast.Tuple) else [e.args[1]]
+                qs = [p.resolve_expr(init.module, t, init) for t in ts]
+                if all(q in ('builtins.int', 'builtins.bool', 'builtins.str', 'builtins.float') for q in qs):
+                    table = {'builtins.int': int, 'builtins.bool': bool, 'builtins.str': str, 'builtins.float': float}
+                    return isinstance(ev(e.args[0], env), tuple(table[q] for q in qs))
+            if e.func.id == 'int' and len(e.args) == 1:
+                v = ev(e.args[0], env)
+                return int(v) if isinstance(v, int) else _RAISES
+        v = p.fold(init.module, e, init.cls, init)
+        if v is UNKNOWN:
+            raise UnknownIdiom('%s: %s is not understood (evaluating the constructor for code=%r)' % (init.qual, short(e), given))
+        return v
+
+    def mentions_code(node):
+        return any((isinstance(x, ast.Name) and x.id == 'code') or (isinstance(x, ast.Attribute) and x.attr == 'code') for x in ast.walk(node))
+
+    out: Set[object] = set()
+    seen = set()
+    work = [(cfg.entry, tuple(sorted(env0.items(), key=lambda kv: kv[0])), _UNSET)]
+    while work:
+        nid, envt, stored = work.pop()
+        key = (nid, repr(envt), repr(stored))
+        if key in seen:
+            continue
+        seen.add(key)
+        if nid == cfg.exit:
+            out.add(stored)
+            continue
+        n = cfg.node(nid)
+        env = dict(envt)
+        if n.kind == 'stmt' and isinstance(n.ast, ast.Raise):
+            out.add(_RAISES)
+            continue
+        if n.kind == 'stmt' and isinstance(n.ast, (ast.Assign, ast.AnnAssign)) and getattr(n.ast, 'value', None) is not None:
+            tgs = n.ast.targets if isinstance(n.ast, ast.Assign) else [n.ast.target]
+            relevant = any((isinstance(t, ast.Name)) or (isinstance(t, ast.Attribute) and t.attr == 'code') for t in tgs)
+            if relevant:
+                for t in tgs:
+                    if isinstance(t, ast.Name):
+                        try:
+                            env[t.id] = ev(n.ast.value, env)
+                        except UnknownIdiom:
+                            if t.id == 'code' or mentions_code(n.ast.value):
+                                raise
+                            env.pop(t.id, None)
+                    elif isinstance(t, ast.Attribute) and t.attr == 'code' and isinstance(t.value, ast.Name) and t.value.id == selfn:
+                        stored = ev(n.ast.value, env)
+                    elif mentions_code(t):
+                        raise UnknownIdiom('%s: %s' % (init.qual, short(n.ast)))
+        elif n.kind == 'stmt' and n.ast is not None and mentions_code(n.ast) and not isinstance(n.ast, (ast.Expr, ast.Assert, ast.Pass)):
+            raise UnknownIdiom('%s: %s' % (init.qual, short(n.ast)))
+        elif n.kind == 'stmt' and isinstance(n.ast, ast.Expr):
+            # setattr(self, 'code', ...) / self.__dict__ tricks are not read
+            if any(isinstance(c.func, ast.Name) and c.func.id == 'setattr' for c in n.calls()):
+                raise UnknownIdiom('%s: %s' % (init.qual, short(n.ast)))
+        want = None
+        if n.kind == 'test':
+            v = ev(n.ast, env)
+            if v is _RAISES:
+                out.add(_RAISES)
+                continue
+            want = 'T' if v else 'F'
+        elif n.kind == 'stmt' and isinstance(n.ast, ast.Assert):
+            if not ev(n.ast.test, env):
+                out.add(_RAISES)
+                continue
+        elif n.kind not in ('entry', 'stmt', 'join'):
+            raise UnknownIdiom('%s: control construct %s in the constructor' % (init.qual, n.text()))
+        envt2 = tuple(sorted(env.items(), key=lambda kv: kv[0]))
+        for (y, l) in cfg.succ[nid]:
+            if l == 'exc' or (want is not None and l in ('T', 'F') and l != want):
+                continue
+            work.append((y, envt2, stored))
+    return out
+
+
+def _is_code(v) -> bool:
+    return isinstance(v, int) and not isinstance(v, bool)
+
+
+class _NoneFlow:
+    """May the value of an expression be None?  Def-use, flow-insensitive over attributes: True (with the None source(s)
+    that reach it), False (every source is a non-None value), None (some source is not understood, no None source found)."""
+
+    def __init__(self, p):
+        self.p = p
+
+    @staticmethod
+    def join(rs):
+        srcs = [s for (v, ss) in rs if v is True for s in ss]
+        if srcs:
+            return True, srcs
+        if any(v is None for (v, _s) in rs) or not rs:
+            return None, []
+        return False, []
+
+    def attr_stores(self, cq: str, attr: str):
+        """(func, value expr) for every ``self.<attr> = value`` in the methods of class `cq` and its project bases"""
+        p = self.p
+        out = []
+        for q in p.mro(cq):
+            c = p.classes.get(q)
+            if c is None:
+                continue
+            if attr in c.attrs and c.attrs[attr] is not None:
+                out.append((None, c.attrs[attr], c))
+            for _n, m in sorted(list(c.methods.items()) + list(getattr(c, 'accessors', {}).items()), key=lambda kv: kv[0]):
+                if not isinstance(m, Func):
+                    continue
+                for attr2, val, _node in _c18._stores(m):
+                    if attr2 == attr:
+                        out.append((m, val, c))
+        return out
+
+    def attr_class(self, f: Func, e) -> Optional[str]:
+        """class of ``self.<a>`` when every store of it in the owning class is a constructor call of one project class"""
+        p = self.p
+        if not (isinstance(e, ast.Attribute) and isinstance(e.value, ast.Name) and e.value.id == 'self' and f.cls is not None):
+            return None
+        qs = set()
+        for (m, val, _c) in self.attr_stores(f.cls.qual, e.attr):
+            t = p.resolve_callable(m, val.func) if (m is not None and isinstance(val, ast.Call)) else None
+            qs.add(t.qual if t is not None and not isinstance(t, (str, Func)) else None)
+        return qs.pop() if len(qs) == 1 and None not in qs else None
+
+    def of_attr(self, cq: str, attr: str, seen, depth):
+        key = (cq, attr)
+        if key in seen or depth > 4:
+            return None, []
+        stores = self.attr_stores(cq, attr)
+        if not stores:
+            return None, []
+        return self.join([self.of(m, val, seen | {key}, depth + 1, indirect=True) if m is not None else self.of_const(c, val) for (m, val, c) in stores])
+
+    def of_const(self, c, val):
+        if isinstance(val, ast.Constant):
+            return (True, ['%s: class attribute = None' % c.qual]) if val.value is None else (False, [])
+        return None, []
+
+    def of(self, f: Func, e, seen=frozenset(), depth=0, local_stores=None, indirect=False):
+        """`indirect`: `e` is a value some method copies into the field that is being read.  A None that sits in ANOTHER
+        field reaches the read only if the copy runs while that field is still None - a temporal fact this reading does
+        not establish (``_send`` copies the receiver's ``client_disconnected_code`` only after the pump set it together
+        with the flag): such a source makes the verdict 'not understood', never 'may be None'."""
+        p = self.p
+        e = strip_await(e)
+        if indirect and isinstance(e, ast.Attribute):
+            r = self.of(f, e, seen, depth)
+            return (None, []) if r[0] is True else r
+        if isinstance(e, ast.Constant):
+            return (True, ['%s None' % f.loc(e)]) if e.value is None else (False, [])
+        if isinstance(e, ast.NamedExpr):
+            return self.of(f, e.value, seen, depth)
+        if isinstance(e, ast.BoolOp):
+            if isinstance(e.op, ast.Or):
+                return self.of(f, e.values[-1], seen, depth)        # a None operand on the left is replaced by the next one
+            return self.join([self.of(f, v, seen, depth) for v in e.values])
+        if isinstance(e, ast.IfExp):
+            subj, none_in_body = None, None
+            t = e.test
+            if isinstance(t, ast.Compare) and len(t.ops) == 1 and isinstance(t.ops[0], (ast.Is, ast.IsNot)) and isinstance(t.comparators[0], ast.Constant) \
+                    and t.comparators[0].value is None:
+                subj, none_in_body = ast.unparse(t.left), isinstance(t.ops[0], ast.Is)
+            elif isinstance(t, ast.UnaryOp) and isinstance(t.op, ast.Not):
+                subj, none_in_body = ast.unparse(t.operand), True
+            else:
+                subj, none_in_body = ast.unparse(t), False
+            rs = []
+            for br, may_hold_none in ((e.body, none_in_body), (e.orelse, not none_in_body)):
+                if not may_hold_none and ast.unparse(br) == subj:
+                    rs.append((False, []))          # the guarded operand itself, on the branch where it is not None
+                else:
+                    rs.append(self.of(f, br, seen, depth))
+            return self.join(rs)
+        v = p.fold(f.module, e, f.cls, f)
+        if v is not UNKNOWN:
+            return (True, ['%s %s' % (f.loc(e), short(e))]) if v is None else (False, [])
+        if isinstance(e, ast.Name):
+            if e.id in f.params():
+                if local_defs(f, e.id):
+                    return None, []         # a parameter the function rebinds (``if code is None: code = K``): not read flow-sensitively
+                a = f.node.args
+                pos = [x.arg for x in a.posonlyargs + a.args]
+                for name, d in list(zip(pos[len(pos) - len(a.defaults):], a.defaults)) + [(k.arg, d) for k, d in zip(a.kwonlyargs, a.kw_defaults)]:
+                    if name == e.id and isinstance(d, ast.Constant) and d.value is None:
+                        return True, ['%s parameter %s defaults to None' % (f.loc(), e.id)]
+                return None, []
+            if depth > 4:
+                return None, []
+            ds = local_defs(f, e.id)
+            if not ds:
+                return None, []
+            return self.join([(None, []) if d is None else self.of(f, d, seen, depth + 1) for d in ds])
+        if isinstance(e, ast.Attribute):
+            if isinstance(e.value, ast.Name) and e.value.id == 'self' and f.cls is not None:
+                if local_stores is not None:
+                    return self.join([self.of(f, val, seen | {(f.cls.qual, e.attr)}, depth + 1, indirect=True) for val in local_stores])
+                return self.of_attr(f.cls.qual, e.attr, seen, depth)
+            cq = self.attr_class(f, e.value)
+            if cq is not None:
+                return self.of_attr(cq, e.attr, seen, depth)
+            return None, []
+        if isinstance(e, ast.Call):
+            fn = e.func
+            if isinstance(fn, ast.Name) and fn.id in ('int', 'len', 'str', 'abs') and p.resolve_expr(f.module, fn, f) in (None, 'builtins.' + fn.id):
+                return False, []
+            if isinstance(fn, ast.Attribute) and fn.attr == 'get' and 1 <= len(e.args) <= 2 and not e.keywords:
+                if len(e.args) == 1:
+                    return True, ['%s %s (no default)' % (f.loc(e), short(e))]
+                r = self.of(f, e.args[1], seen, depth)
+                return r if r[0] is True else (None, [])
+            m = p.callee(f, e)
+            if isinstance(m, Func) and depth < 3:
+                rets = [n for n in walk_self(m.node) if isinstance(n, ast.Return)]
+                rs = [self.of(m, r.value, seen, depth + 1) if r.value is not None else (True, ['%s bare return' % m.loc(r)]) for r in rets]
+                mc = cfg_of(m, p)
+                if any(i in mc.reachable_ids and not (mc.node(i).kind == 'stmt' and isinstance(mc.node(i).ast, ast.Return)) for (i, _l) in mc.pred[mc.exit]):
+                    rs.append((True, ['%s falls off the end' % m.loc()]))
+                return self.join(rs)
+            return None, []
+        return None, []
+
+
+def r9_disconnected_code(run):
+    """"Operations in the wrong state raise the documented errors": the documented disconnected error is
+    ``WebSocketDisconnected`` with an integer ``code`` (default 1000).  Decided:
+
+    * the constructor reports a code it is given unchanged;
+    * for every construction site in falcon/asgi/ws.py, by def-use of the argument: when a None can reach it (a local
+      assigned None on some path, a field that some method initialises to None, a helper that can return None, an
+      omitted argument whose default is None) the constructor - evaluated concretely for that input - stores an
+      integer.  A site whose argument cannot be None (a folded constant, ``x or K``, ``K if x is None else x``) is
+      fine whatever the constructor does; a constructor that maps None to an integer makes every site fine.
+
+    W: the server's send() raises an OSError that names no close code: ``_translate_webserver_error`` builds
+    ``WebSocketDisconnected(None)`` and the failing and every later send_*/receive_* raises it with ``code is None``
+    instead of 1000 (``'%d' % ex.code`` / ``ws.close(ex.code)`` in the application break).
+
+    A field is read flow-insensitively (all stores of the class), except when the site is dominated by stores of that
+    field in the same function: then only those count."""
+    p = run.project
+    p.cls(E_DISCONNECTED)
+    init = p.lookup_method(E_DISCONNECTED, '__init__')
+    if init is None:
+        raise AnchorError('%s has no __init__ of its own' % E_DISCONNECTED)
+    if 'code' not in init.params()[1:]:
+        raise AnchorError('%s has no code parameter (the documented keyword)' % init.qual)
+    run.use_cfg(cfg_of(init, p))
+    idx = init.params()[1:].index('code')
+    samples = (1000, 1001, 1011, 3404, 4042)
+    got = {v: _ctor_code(p, init, v) for v in samples}
+    if all(_UNSET in g for g in got.values()):
+        raise AnchorError('%s never assigns self.code' % init.qual)
+    bad = [v for v in samples if got[v] != {v}]
+    run.check(not bad, 'WebSocketDisconnected(code) reports the close code it was given', init, 'self.code for a given code',
+              witness=['code=%r -> self.code in %s' % (v, sorted(map(repr, got[v]))) for v in bad[:4]],
+              runtime_witness='a client leaving with close code %d is reported to the application with another code' % (bad[0] if bad else 0))
+    cache: Dict[object, Set[object]] = {}
+
+    def ctor(given=None, absent=False):
+        k = ('absent',) if absent else ('given', given)
+        if k not in cache:
+            cache[k] = _ctor_code(p, init, given, absent)
+        return cache[k]
+
+    nf = _NoneFlow(p)
+    n_sites = 0
+    undecided = []
+    rw = ('the server\'s send() raises an OSError naming no close code (ASGI spec 2.4, uvicorn+wsproto ClientDisconnected): the failing and every later '
+          'send_*/receive_* raises WebSocketDisconnected with code None instead of 1000')
+    for f in sorted(p.all_functions(), key=lambda g: g.qual):
+        if f.module.name != WS_MODULE:
+            continue
+        cfg = None
+        for c in walk_self(f.node):
+            if not isinstance(c, ast.Call):
+                continue
+            q = p.resolve_expr(f.module, c.func, f)
+            if q is None or q not in p.classes or not (q == E_DISCONNECTED or p.is_subclass(q, E_DISCONNECTED) is True):
+                continue
+            if p.lookup_method(q, '__init__') is not init:
+                raise UnknownIdiom('%s: %s has a constructor of its own' % (f.qual, q))
+            if any(isinstance(a, ast.Starred) for a in c.args) or any(kw.arg is None for kw in c.keywords):
+                raise UnknownIdiom('%s: star-arguments in %s' % (f.qual, short(c)))
+            n_sites += 1
+            run.use(f)
+            arg = c.args[idx] if idx < len(c.args) else next((kw.value for kw in c.keywords if kw.arg == 'code'), None)
+            what = '%s: the WebSocketDisconnected built here carries an integer close code (its argument is never None, or the constructor maps None to the default code)' % f.name
+            if arg is None:
+                stored = ctor(absent=True)
+                run.check(all(_is_code(v) for v in stored), what, f, c, witness=['no argument: self.code in %s' % sorted(map(repr, stored))], runtime_witness=rw)
+                continue
+            # a field read right after this function assigned it: only those stores count
+            local_stores = None
+            if isinstance(arg, ast.Attribute) and isinstance(arg.value, ast.Name) and arg.value.id == 'self':
+                cfg = cfg or cfg_of(f, p)
+                site = [n.id for n in cfg.live_nodes() if any(x is c for x in n.walk())]
+                st = [(node, val) for (a2, val, node) in _c18._stores(f) if a2 == arg.attr]
+                st_nodes = [i for (node, _v) in st for i in cfg.nodes_for(node)]
+                if site and st_nodes and all(flow.dominated_by_nodes(cfg, s, st_nodes) for s in site):
+                    local_stores = [val for (_n, val) in st]
+            verdict, sources = nf.of(f, arg, local_stores=local_stores)
+            if verdict is False:
+                run.ok(what, f.loc(c), c)
+                continue
+            stored = ctor(None)
+            safe = all(_is_code(v) for v in stored)
+            if verdict is None and not safe:
+                undecided.append('%s %s' % (f.loc(c), short(c)))     # no None source proven: not accused
+                continue
+            run.check(safe, what, f, c,
+                      witness=(['None reaches the argument from: %s' % s for s in sources[:4]]
+                               + ['%s with code=None stores self.code in %s' % (init.qual, sorted(map(repr, stored)))]),
+                      runtime_witness=rw)
+    if n_sites < 3:
+        raise AnchorError('%s: fewer than 3 construction sites of WebSocketDisconnected found' % WS_MODULE)
+    run.extra['c17_disconnected_code'] = {'constructor(None)': sorted(map(repr, ctor(None))), 'sites': n_sites,
+                                         'sites whose argument is not understood (not accused)': undecided}
+
+
 def check(run):
     run.assume('a WebSocket object is used by one task at a time (the state is not changed by other tasks while an operation is suspended), '
                'except for the client_disconnected flag, which may become True at any suspension point')
@@ -1472,3 +1874,8 @@ def check(run):
                                                 'disconnect (nothing is sent after the connection is lost; pump context shared with C18 R3)', floor=1)
     run.rule('R7', _c18.r6_end_of_stream, 'payloads arrive in order and none is dropped at the end of a session: receive() reports "client gone" only '
                                           'when no message is buffered (= C18 R6, shared)', floor=2)
+    run.rule('R8', _c18.r7_receive_ignores_flag, 'payloads arrive unchanged in order: the receive path (receive_*, the shared state guard and what they '
+                                                 'use) does not consult the sender-side disconnect flag, so messages buffered before the client left are '
+                                                 'still handed out (= C18 R7, shared)', floor=4)
+    run.rule('R9', r9_disconnected_code, 'the documented disconnected error always carries an integer close code: a construction site in ws.py whose '
+                                         'argument may be None relies on the constructor mapping None to the default code', floor=4)
